@@ -305,6 +305,9 @@ contract(OM + "_process_order", props=P + ["C04", "C11"],
              ("ledger", "forall(lambda s=Str: total_of(om_acc(self), s) - old(total_of(om_acc(self), s)) == GHOST.ledger[s] - old(GHOST.ledger[s]))"),
              # C05: monotone state machine; fill-or-kill orders never stay open after their first bar
              ("monotone", "filled(order) >= old(filled(order)) and filled(order) <= order._amount"),
+             # C03/C05: at most one fill per bar, stamped with the bar event's time
+             ("fill_time", "seq_len(order._fills) <= old(seq_len(order._fills)) + 1 and implies(seq_len(order._fills) > old(seq_len(order._fills)), "
+                           "seq_at(order._fills, seq_len(order._fills) - 1).when == bar_event.when)"),
              ("fill_or_kill", "implies(fok(order), not st_open(order))"),
              ("fok_no_partial", "implies(fok(order), filled(order) == old(filled(order)) or filled(order) == order._amount)"),
              ("closed_iff", "implies(not st_open(order), filled(order) >= order._amount or order._state == OrderState.CANCELED)"),
@@ -407,7 +410,8 @@ contract(OM + "on_bar_event", props=P + ["C04", "C11", "C03"],
              ("fok_closed", "forall(lambda k=Id: implies((k in self._orders._items) and old(st_open(self._orders._items[k])) "
                             "and self._orders._items[k]._pair == bar_event.bar.pair and fok(self._orders._items[k]), not st_open(self._orders._items[k])))")],
          raises={"Error": []},
-         modifies=BAR_MOD,
+         modifies=BAR_MOD + ["self.last_bar"],
+         ghost_exit=[("self.last_bar", "bar_event")],
          loops={0: dict(invariant=BAR_INV + [
              ("liq", "liq_wf(liquidity_strategy)"),
              ("seen_fok", "forall(lambda o=Order: implies(o in SEEN and fok(o), not st_open(o)))")],
